@@ -11,7 +11,7 @@ KNOWN = {
     "cparam:nonu": True, "cparam:unc": True, "real:zaid-like": True, "real:fortran-after-dot": True,
     "particle-keyword:": True, "particle-symbol:": True, "particle-comment:": True, "tally-mod:+": True,
     "sdef-empty": False, "paren-lead-pad:": True, "mat-plain-after-lib": True, "mul-real": True,
-    "chained-shortcuts-3": False, "paren-then-complement": True,
+    "chained-shortcuts-3": True, "paren-then-complement": True, "percell-shortcut:": True, "lib-suffix-e": True,
 }
 
 
@@ -50,7 +50,7 @@ def _sentence_matches(case, params):
     if params.get("shape_kind") and shape[0] not in params["shape_kind"]:
         return False
     bad = C12.oracle(G.render(shape, mask), block)
-    if bad is None or bad["exception"] not in params["exceptions"]:
+    if bad is None or ("*" not in params["exceptions"] and bad["exception"] not in params["exceptions"]):
         return False
     c = clean(shape)
     after = C12.oracle(G.render(c, mask), block)
